@@ -82,7 +82,7 @@ fn c05_block_predecessor_law() {
 /// block counters relative to it, one sentinel block record after the last block, a last superblock
 /// record carrying the totals when the length is a multiple of the superblock size.
 macro_rules! select_block_stage {
-    ($name:ident, $bsize:expr, $nb:expr, $unw:expr) => {
+    ($name:ident, $bsize:expr, $nb:expr, $unw:expr, $two:expr) => {
         #[kani::proof]
         #[kani::unwind($unw)]
         fn $name() {
@@ -98,6 +98,12 @@ macro_rules! select_block_stage {
                 b += 1;
             }
             cum[NB + 1] = cum[NB];
+            // one select sample period (8192 occurrences) unless the two-sample variant is requested
+            if $two {
+                kani::assume(cum[NB] > 8192);
+            } else {
+                kani::assume(cum[NB] <= 8192);
+            }
             let c: u8 = kani::any();
             kani::assume(c < 4);
             let mut sbs = [SuperblockPlain::default(); NSB];
@@ -131,7 +137,22 @@ macro_rules! select_block_stage {
                 }
                 s += 1;
             }
-            let sample: Box<[u32]> = vec![first as u32, (NSB - 1) as u32].into_boxed_slice();
+            // second sample: superblock holding occurrence 8193 (only when there are more than 8192 occurrences)
+            let mut second = 0usize;
+            let mut s = 0;
+            while s < NSB {
+                let lo = cum[if 8 * s <= NB { 8 * s } else { NB }];
+                let hi = cum[if 8 * (s + 1) <= NB { 8 * (s + 1) } else { NB }];
+                if lo < 8193 && 8193 <= hi {
+                    second = s;
+                }
+                s += 1;
+            }
+            let sample: Box<[u32]> = if $two {
+                vec![first as u32, second as u32, (NSB - 1) as u32].into_boxed_slice()
+            } else {
+                vec![first as u32, (NSB - 1) as u32].into_boxed_slice()
+            };
             let dummy: Box<[u32]> = vec![0u32, (NSB - 1) as u32].into_boxed_slice();
             let mut samples = [dummy.clone(), dummy.clone(), dummy.clone(), dummy];
             samples[c as usize] = sample;
@@ -157,16 +178,20 @@ macro_rules! select_block_stage {
 // @h props=C05,C04:t,C10:t tier=quick family=S mem=6 timeout=2400 role=rssupport.select_block.256
 // @bound B=256: assembled directory of 11 full blocks (two superblocks + sentinel) with arbitrary per-block populations of the queried symbol; every valid i; one select sample
 // @funcs RSSupportPlain::select_block, RSSupportPlain::rank_block, SuperblockPlain::block_predecessor, SuperblockPlain::get_superblock_counter, SuperblockPlain::get_rank
-select_block_stage!(c05_select_block_256_nb11, 256, 11, 14);
+select_block_stage!(c05_select_block_256_nb11, 256, 11, 14, false);
 // @h props=C05,C04:t,C10:t tier=quick family=S mem=6 timeout=2400 role=rssupport.select_block.512
 // @bound B=512: assembled directory of 11 full blocks with arbitrary per-block populations (counters up to 3584)
 // @funcs RSSupportPlain::select_block, RSSupportPlain::rank_block, SuperblockPlain::block_predecessor
-select_block_stage!(c05_select_block_512_nb11, 512, 11, 14);
+select_block_stage!(c05_select_block_512_nb11, 512, 11, 14, false);
 // @h props=C05 tier=thorough family=S mem=6 timeout=3600 role=rssupport.select_block.256
 // @bound B=256: assembled directory of 16 full blocks (length an exact multiple of the superblock size: last record carries only totals)
 // @funcs RSSupportPlain::select_block, RSSupportPlain::rank_block, SuperblockPlain::block_predecessor
-select_block_stage!(c05_select_block_256_nb16, 256, 16, 20);
+select_block_stage!(c05_select_block_256_nb16, 256, 16, 20, false);
 // @h props=C05 tier=thorough family=S mem=6 timeout=3600 role=rssupport.select_block.512
 // @bound B=512: assembled directory of 26 full blocks (four superblocks: the sqrt-step search skips)
 // @funcs RSSupportPlain::select_block, RSSupportPlain::rank_block, SuperblockPlain::block_predecessor
-select_block_stage!(c05_select_block_512_nb26, 512, 26, 30);
+select_block_stage!(c05_select_block_512_nb26, 512, 26, 30, false);
+// @h props=C05,C10:t tier=thorough family=S mem=16 timeout=3600 role=rssupport.select_block.512.two_samples
+// @bound B=512: assembled directory of 20 full blocks holding MORE than 8192 occurrences of the symbol (two select sample periods: samples = superblock of occurrence 1, of occurrence 8193, guard); every valid i
+// @funcs RSSupportPlain::select_block, RSSupportPlain::rank_block, SuperblockPlain::block_predecessor
+select_block_stage!(c05_select_block_512_nb20_two_samples, 512, 20, 24, true);
